@@ -201,7 +201,8 @@ PROPS["C17"] = dict(
     "timeout child contexts, Ok/Err/panic outcomes, caller cancellation and deadlines) run on the real scope::run! - on a current-thread runtime with paused clock "
     "(deterministic; a scope that never returns is detected in virtual time) and on multi-thread runtimes with 2-8 workers (racy). A log with one sequence counter is "
     "checked: every started task ended before its scopes returned; result = root value / an error some task returned that is not provably later than another / re-raised "
-    "panic; cancellation observed only after a trigger, and every waiter released. Every task writes a cell borrowed from the caller's frame as its last action, so an "
+    "panic; every nested scope (scope::run! inside an async task, scope::run_blocking! with a blocking root inside a blocking task) returned its root's value or the error of one of its own tasks; "
+    "a JoinHandle::join returned a value only for a task that had finished successfully (that task's value) and Canceled only after a cancellation trigger; cancellation observed only after a trigger, and every waiter released. Every task writes a cell borrowed from the caller's frame as its last action, so an "
     "early return is a use-after-free: the same binary runs under Miri (-Zmiri-seed per shard varies the schedule), ThreadSanitizer (-Zbuild-std) and AddressSanitizer, "
     "where any report fails the run. Deadline scenarios on manual clocks: a caller context with a 10 s deadline (inherited or tightened to 5 s; on the root's clock or on an independent clock of its own) runs a scope whose root task, background task and nested scopes wait for cancellation; one clock is advanced by 3 / 7 / 11 s and the scope must return iff a deadline has passed on the caller's own clock or on an ancestor's.",
     assumptions=["tokio is trusted; a clean Miri/TSan/ASan run means no report on the reached code, not memory safety", "held on the generated programs and observed interleavings only"],
@@ -212,7 +213,7 @@ PROPS["C17"] = dict(
         dict(name="asan", flavour="asan", args={"programs": 60}, shards=8, tiers=["thorough"], **CONC),
     ],
     floors={"quick": {"executions_multi_thread": 5000, "executions_current_thread_virtual_time": 2000, "executions_with_panic": 1000, "executions_with_competing_errors": 1000,
-                      "executions_with_caller_cancel": 1000, "executions_with_caller_deadline": 300, "executions_with_nested_scope": 1000, "cancellations_observed": 5000},
+                      "executions_with_caller_cancel": 1000, "executions_with_caller_deadline": 300, "executions_with_nested_scope": 1000, "cancellations_observed": 5000, "joins_that_returned_the_task_value": 1000, "joins_that_returned_canceled": 100, "nested_scope_results_checked": 1000, "run_blocking_scopes_executed": 200},
             "thorough": {"executions_multi_thread": 100000}},
 )
 
